@@ -230,7 +230,7 @@ impl DailyLogsUpdate {
                     Some(hash.as_bytes().to_vec())
                 };
 
-                let history_hash = if previous_room.eq(&room) {
+                let history_hash = if previous_room.eq(&room) && previous_entity.eq(&entity) {
                     if let Some(previous) = &previous_history {
                         let mut hasher = blake3::Hasher::new();
                         hasher.update(previous);
